@@ -267,16 +267,16 @@ fn unmetered_message(req: &str) -> Option<Vec<u8>> {
     let mut it = req.split('\t');
     let op = it.next()?;
     let args: Vec<&str> = it.collect();
-    let unmetered = match op {
-        "wire.decode" | "wire.decodeSelf" => true,
-        "de.decode" => args.get(3) == Some(&"-"),
-        _ => false,
+    // the argument that holds the message, for the ops that decode one without a decoding quota (the implementation,
+    // or the specification's reader, which reads the whole wire value before it coerces)
+    let at = match op {
+        "wire.decode" | "wire.decodeSelf" => Some(0),
+        "de.decode" => Some(0), // also under quotas: the specification's answer is computed without them
+        "nat.decode" | "nat.decodeU" | "nat.bounded" => Some(1),
+        "nat.check" | "nat.checkU" => Some(2),
+        _ => None,
     };
-    if unmetered {
-        sexp::unhx(args.first()?)
-    } else {
-        None
-    }
+    sexp::unhx(args.get(at?)?)
 }
 
 impl Ctx {
